@@ -151,6 +151,40 @@ func opSeqinfo(f []string) string {
 		}
 		outs[so] = true
 	}
+	// and once under the race detector: the per-pattern goroutines share nothing they write
+	// (every case in the thorough tier, one case in four otherwise, chosen by the arguments)
+	sample := os.Getenv("VERIF_TIER") == "thorough"
+	if !sample {
+		hsum := 0
+		for _, a := range jsonArgs {
+			for _, c := range []byte(a) {
+				hsum = (hsum*31 + int(c)) & 0xffffff
+			}
+		}
+		sample = hsum%4 == 0
+	}
+	if rb := cliBin("seqinfo.race"); len(pats) >= 2 && sample {
+		if _, err := os.Stat(rb); err == nil {
+			so, se, code := runCmd(rb, jsonArgs, stdin, []string{"GOMAXPROCS=16", "GORACE=halt_on_error=1 exitcode=66"}, 40*time.Second)
+			if strings.Contains(se, "DATA RACE") || code == 66 {
+				loc := ""
+				for _, l := range strings.Split(se, "\n") {
+					if strings.Contains(l, "/repo/") && loc == "" {
+						loc = strings.TrimSpace(l)
+					}
+				}
+				return "crash=" + strings.Map(func(r rune) rune {
+					if r == ';' || r == '=' || r == '\n' || r == '\t' {
+						return ' '
+					}
+					return r
+				}, "data race "+loc)
+			}
+			if code == 0 {
+				outs[so] = true
+			}
+		}
+	}
 	var m map[string]infoResult
 	if err := json.Unmarshal([]byte(first), &m); err != nil {
 		return "badjson=1"
@@ -527,6 +561,58 @@ func genSeqlsShots(r *Rand) string {
 	return fmt.Sprintf("seqls %s %s %s", flags, strings.Join(roots, ","), strings.Join(nodes, ","))
 }
 
+// genSeqlsCycle: a cyclic directory link (shot/up -> its grandparent) next to 1-4 links to flat
+// directories, one link per target. The walk passes through the cycle once; on the second pass
+// every link is listed but not followed, whatever the schedule (all links of a directory are
+// recorded while that directory is read, before anything below it is visited), so the exact
+// listing is compared. A pattern argument with a 256-400 byte file name may ride along.
+func genSeqlsCycle(r *Rand) string {
+	var nodes []string
+	top := r.Pick([]string{"show", "prj.v2"})
+	nodes = append(nodes, hx(top)+":d", hx(top+"/shot")+":d", hx("pub")+":d")
+	for j := 1; j <= r.Range(1, 3); j++ {
+		nodes = append(nodes, hx(fmt.Sprintf("%s/r.%d.exr", top, j))+":f")
+		nodes = append(nodes, hx(fmt.Sprintf("%s/shot/s_%02d.jpg", top, j))+":f")
+	}
+	nl := r.Range(1, 4)
+	var links []string
+	for k := 0; k < nl; k++ {
+		tgt := fmt.Sprintf("pub/v%03d", k)
+		nodes = append(nodes, hx(tgt)+":d")
+		for j := 1; j <= r.Range(1, 3); j++ {
+			nodes = append(nodes, hx(fmt.Sprintf("%s/e%d.%d.exr", tgt, k, j))+":f")
+		}
+		links = append(links, hx(fmt.Sprintf("%s/shot/ln%d", top, k))+":L:"+hx(tgt))
+	}
+	up := hx(top+"/shot/"+r.Pick([]string{"up", "aa_up", "zz_up"})) + ":L:" + hx(top)
+	if r.Bool() {
+		nodes = append(nodes, up)
+		nodes = append(nodes, links...)
+	} else {
+		nodes = append(nodes, links...)
+		nodes = append(nodes, up)
+	}
+	flags := "r"
+	for _, c := range "as1f" {
+		if r.Chance(1, 2) {
+			flags += string(c)
+		}
+	}
+	roots := []string{hx(top)}
+	if r.Chance(1, 3) {
+		roots = nil // the pattern alone
+	}
+	if roots == nil || r.Bool() {
+		// a legal pattern whose file name is longer than NAME_MAX (a long list of frames)
+		var nums []string
+		for n := 1; len(strings.Join(nums, ",")) < r.Range(250, 400); n += 2 {
+			nums = append(nums, strconv.Itoa(n))
+		}
+		roots = append(roots, hx(fmt.Sprintf("pub/v000/e0.%s#.exr", strings.Join(nums, ","))))
+	}
+	return fmt.Sprintf("seqls %s %s %s", flags, strings.Join(roots, ","), strings.Join(nodes, ","))
+}
+
 // genSeqlsLong: one directory with 30-45 sub-directories whose names are 237-255 bytes long (a
 // directory entry near the maximum record size), each holding a short sequence
 func genSeqlsLong(r *Rand) string {
@@ -564,6 +650,10 @@ func genSeqls(r *Rand, n int, thorough bool, emit func(string)) {
 		}
 		if i%10 == 4 {
 			emit(genSeqlsShots(r))
+			continue
+		}
+		if i%10 == 6 {
+			emit(genSeqlsCycle(r))
 			continue
 		}
 		var nodes []string
